@@ -1149,3 +1149,340 @@ def unsafe_separator_appended_on_one_path_only(module: Node, other: Node, nested
 def safe_parameter_normalised_by_assignment(module: Node, prefix: str) -> bool:
     prefix = prefix.rstrip(".") + "."
     return module + "." == prefix or module.startswith(prefix)
+
+
+# ----------------------------------------------------------------------------- the not-found result of find is replaced on a path
+
+
+def safe_find_loop_not_found_replaced_by_length(module: Node, limit: int) -> str:
+    parts_to_keep = limit + 1
+    if parts_to_keep <= 0:
+        return ".".join(module.split(".")[:parts_to_keep])
+    end = -1
+    for _ in range(parts_to_keep):
+        end = module.find(".", end + 1)
+        if end < 0:
+            end = len(module)
+            break
+    return module[:end]
+
+
+def unsafe_find_loop_not_found_kept(module: Node, limit: int) -> str:
+    parts_to_keep = limit + 1
+    if parts_to_keep <= 0:
+        return ".".join(module.split(".")[:parts_to_keep])
+    end = -1
+    for _ in range(parts_to_keep):
+        end = module.find(".", end + 1)
+        if end < 0:
+            break
+    return module[:end]
+
+
+def unsafe_find_loop_that_may_not_run(module: Node, limit: int) -> str:
+    end = -1
+    for _ in range(limit):
+        end = module.find(".", end + 1)
+        if end < 0:
+            end = len(module)
+            break
+    return module[:end]
+
+
+def unsafe_find_loop_guard_never_true(module: Node, limit: int) -> str:
+    if limit < 1:
+        return module
+    end = -1
+    for _ in range(limit):
+        end = module.find(".", end + 1)
+        if end < -1:
+            end = len(module)
+            break
+    return module[:end]
+
+
+def safe_find_not_found_replaced_by_length(module: Node) -> str:
+    end = module.find(".")
+    if end == -1:
+        end = len(module)
+    return module[:end]
+
+
+def safe_find_found_or_length(module: Node) -> str:
+    end = module.find(".")
+    if end != -1:
+        pass
+    else:
+        end = len(module)
+    return module[:end]
+
+
+def unsafe_find_replaced_on_the_wrong_branch(module: Node) -> str:
+    end = module.find(".")
+    if end != -1:
+        end = len(module)
+    return module[:end]
+
+
+def safe_rfind_while_not_found_replaced_by_zero(module: Node) -> list[str]:
+    prefixes = []
+    end = len(module)
+    while True:
+        end = module.rfind(".", 0, end)
+        if 0 > end:
+            end = 0
+        if not end:
+            break
+        prefixes.append(module[:end])
+    return prefixes
+
+
+def unsafe_find_in_try_not_found_kept(module: Node) -> str:
+    end = len(module)
+    try:
+        end = module.find(".")
+        int(module[end + 1 :])
+    except ValueError:
+        return module[:end]
+    return module
+
+
+# ----------------------------------------------------------------------------- only the first occurrence is replaced
+
+
+def safe_replace_first_occurrence_under_boundary_test(module: Node, listed: list[Node], aliases: dict[str, str]) -> str:
+    for candidate in listed:
+        if module == candidate or module.startswith(f"{candidate}."):
+            return module.replace(candidate, aliases[candidate], 1)
+    return module
+
+
+def safe_replace_first_occurrence_of_an_ancestor(module: Node, aliases: dict[str, str]) -> str:
+    for ancestor in reversed(get_parent_modules(module)):
+        if ancestor in aliases:
+            return module.replace(ancestor, aliases[ancestor], 1)
+    return module
+
+
+def get_parent_modules(module: Node) -> list[Node]:
+    parts = module.split(".")
+    return [".".join(parts[:i]) for i in range(1, len(parts))]
+
+
+def unsafe_replace_every_occurrence_under_boundary_test(module: Node, listed: list[Node], aliases: dict[str, str]) -> str:
+    for candidate in listed:
+        if module == candidate or module.startswith(f"{candidate}."):
+            return module.replace(candidate, aliases[candidate])
+    return module
+
+
+def unsafe_replace_two_occurrences_under_boundary_test(module: Node, listed: list[Node], aliases: dict[str, str]) -> str:
+    for candidate in listed:
+        if module == candidate or module.startswith(f"{candidate}."):
+            return module.replace(candidate, aliases[candidate], 2)
+    return module
+
+
+def unsafe_replace_first_occurrence_after_raw_test(module: Node, listed: list[Node], aliases: dict[str, str]) -> str:
+    for candidate in listed:
+        if module.startswith(candidate):
+            return module.replace(candidate, aliases[candidate], 1)
+    return module
+
+
+def unsafe_replace_first_occurrence_of_a_component(module: Node, listed: list[Node], aliases: dict[str, str]) -> str:
+    for candidate in listed:
+        if candidate in module.split("."):
+            return module.replace(candidate, aliases[candidate], 1)
+    return module
+
+
+def unsafe_replace_first_occurrence_tested_on_another_name(module: Node, other: Node, candidate: Node, alias: str) -> str:
+    if other == candidate or other.startswith(candidate + "."):
+        return module.replace(candidate, alias, 1)
+    return module
+
+
+# ----------------------------------------------------------------------------- ancestors accumulated from the components
+
+
+def safe_ancestors_accumulated_with_separator(module: Node) -> list[str]:
+    from itertools import accumulate
+
+    *ancestor_components, _ = module.split(".")
+    return list(accumulate(ancestor_components, "{}.{}".format))
+
+
+def safe_ancestors_accumulated_by_lambda(module: Node) -> list[str]:
+    from itertools import accumulate
+
+    return list(accumulate(module.split(".")[:-1], lambda ancestor, component: f"{ancestor}.{component}"))
+
+
+def safe_name_reduced_from_components(module: Node, limit: int) -> str:
+    from functools import reduce
+
+    return reduce(lambda name, component: name + "." + component, module.split(".")[:limit])
+
+
+def unsafe_ancestors_accumulated_without_separator(module: Node) -> list[str]:
+    from itertools import accumulate
+
+    *ancestor_components, _ = module.split(".")
+    return list(accumulate(ancestor_components, "{}{}".format))
+
+
+def unsafe_ancestors_accumulated_with_underscore(module: Node) -> list[str]:
+    from itertools import accumulate
+
+    return list(accumulate(module.split(".")[:-1], lambda ancestor, component: f"{ancestor}_{component}"))
+
+
+def unsafe_name_reduced_with_plain_concatenation(module: Node, limit: int) -> str:
+    from functools import reduce
+
+    return reduce(lambda name, component: name + component, module.split(".")[:limit])
+
+
+# ----------------------------------------------------------------------------- head and next character kept in locals / fields
+
+
+def safe_head_and_next_character_as_locals(module: Node, other: Node) -> bool:
+    end = len(other)
+    head, next_character = module[:end], module[end : end + 1]
+    return head == other and next_character in ("", ".")
+
+
+def unsafe_head_as_local_compared_raw(module: Node, other: Node) -> bool:
+    end = len(other)
+    head = module[:end]
+    return head == other
+
+
+def unsafe_head_and_wrong_next_character_as_locals(module: Node, other: Node) -> bool:
+    end = len(other)
+    head, next_character = module[:end], module[end : end + 1]
+    return head == other and next_character in ("", ".", "_")
+
+
+class _MatcherWithLengthField:
+    _ENDS = ("", ".")
+    _WRONG_ENDS = ("", ".", "_")
+
+    def __init__(self, root: Node) -> None:
+        self._root = root.rstrip(".")
+        self._end = len(self._root)
+        self._other = root
+        self._length_of_something_else = len(self._other)
+        self._other = self._other.rstrip(".")
+
+    def safe_length_in_field(self, module: Node) -> bool:
+        end = self._end
+        head, next_character = module[:end], module[end : end + 1]
+        return head == self._root and next_character in self._ENDS
+
+    def unsafe_length_in_field_no_boundary(self, module: Node) -> bool:
+        end = self._end
+        head = module[:end]
+        return head == self._root
+
+    def unsafe_length_in_field_wrong_boundary(self, module: Node) -> bool:
+        end = self._end
+        head, next_character = module[:end], module[end : end + 1]
+        return head == self._root and next_character in self._WRONG_ENDS
+
+    def notsafe_length_field_of_a_string_that_changed_since(self, module: Node) -> bool:
+        end = self._length_of_something_else
+        head, next_character = module[:end], module[end : end + 1]
+        return head == self._other and next_character in self._ENDS
+
+
+# ----------------------------------------------------------------------------- names handed to callable objects
+
+
+class _RawPrefixMatcher:
+    def __init__(self, root: Node) -> None:
+        self._root = root
+
+    def __call__(self, module: str) -> bool:
+        return unsafe_reached_only_through_a_callable_object(module, self._root)
+
+
+def unsafe_reached_only_through_a_callable_object(module: str, other: str) -> bool:
+    return module.startswith(other)
+
+
+def _caller_of_callable_objects(nodes: list[Node], root: Node) -> list[str]:
+    return list(filter(_RawPrefixMatcher(root), nodes))
+
+
+def safe_index_in_try_not_found_replaced_by_length(module: Node) -> str:
+    try:
+        end = module.index(".")
+    except ValueError:
+        end = len(module)
+    return module[:end]
+
+
+def safe_find_result_copied_when_found(module: Node) -> str:
+    position = module.find(".")
+    end = position if position != -1 else len(module)
+    return module[:end]
+
+
+def safe_find_result_copied_under_guard(module: Node) -> str:
+    end = len(module)
+    position = module.find(".")
+    if position >= 0:
+        end = position
+    return module[:end]
+
+
+def unsafe_find_result_copied_unguarded(module: Node) -> str:
+    end = len(module)
+    position = module.find(".")
+    if position != 0:
+        end = position
+    return module[:end]
+
+
+def unsafe_find_conditional_expression_wrong_way_round(module: Node) -> str:
+    position = module.find(".")
+    end = position if position == -1 else len(module)
+    return module[:end]
+
+
+def safe_walrus_find_not_found_replaced(module: Node) -> str:
+    if (end := module.find(".")) < 0:
+        end = len(module)
+    return module[:end]
+
+
+def safe_find_after_separator_test(module: Node) -> str:
+    if "." not in module:
+        return module
+    end = module.find(".")
+    return module[:end]
+
+
+def safe_find_replaced_when_no_separator(module: Node) -> str:
+    end = module.find(".")
+    if "." not in module:
+        end = len(module)
+    return module[:end]
+
+
+def unsafe_find_after_inverted_separator_test(module: Node) -> str:
+    end = len(module)
+    if "." not in module:
+        end = module.find(".")
+    return module[:end]
+
+
+def unsafe_position_of_another_name_after_reassignment(module: Node, other: Node) -> str:
+    name = module
+    end = name.find(".")
+    if end < 0:
+        end = len(name)
+    name = other
+    return name[:end]
